@@ -184,20 +184,39 @@ def _point(case):
     for s in (1024, 2 ** 24):
         cmp("joint-shift", run(goff=v["goff"] + s), v0, "grid and t0 shifted together by %d samples" % s)
     # whole-sample shift of the shower time only
-    for k in (5, 64):
+    for k in (5, 64, v["N"] // 2, -(v["N"] // 2), -3 * v["N"] // 4, v["N"]):
+        # the frequency-domain models return an all-zero trace by construction once the shower time is more than one window
+        # length away from the window centre; the relation is checked while both shower times stay inside that range
+        if not (-v["N"] // 2 < v["t0"] + k < 3 * v["N"] // 2):
+            continue
         r = run(t0=v["t0"] + k)
         if r[0] == "exc":
-            fail("sample-shift", "t0 + %d samples raised %s" % (k, r[1]))
+            fail("sample-shift", "t0 %+d samples raised %s" % (k, r[1]))
         else:
-            got, want = r[1][k:], v0[:-k]
+            got, want = (r[1][k:], v0[:-k]) if k > 0 else (r[1][:k], v0[-k:])
             if model == "AVZ" and v["N"] % 2:
                 # odd lengths: the model computes N-1 samples and extrapolates the last one linearly (documented)
                 got, want = got[:-1], want[:-1]
             # the pulse content that leaves through the end of the window is dropped; compare the overlap
-            if not np.all(np.abs(got - want) <= max(tol, 1e-10 * float(np.max(np.abs(r[1]))))):
+            # ARZ convolves with a vector potential tabulated on a finite window (+-10 ns around the trace): shifting by a large
+            # part of the window changes which part of its tail is included (measured 3e-6 of the peak at half a window near the cone, 7e-4 for a view 40 degrees off the cone)
+            big = model == "ARZ" and abs(k) > 64
+            if not np.all(np.abs(got - want) <= max(tol, 1e-10 * float(np.max(np.abs(r[1]))), (5e-3 * peak) if big else 0.0)):
                 bad = int(np.argmax(np.abs(got - want)))
                 fail("sample-shift", "t0 moved by %d samples: values are not the old ones moved by %d samples (diff %.3g at %d, peak %.3g)"
                      % (k, k, float(np.max(np.abs(got - want))), bad, peak))
+    # a pulse whose shower time lies a quarter window before the first / after the last sample has left the window: what remains
+    # is its tail, not a copy of the pulse that re-enters at the other end
+    far = int(math.ceil(6e-9 / v["dt"]))       # 6 ns: many pulse widths for a view one degree off the cone
+    if peak > 0 and v["t0"] == 40 and cfg["angle"] == 0 and far < v["N"] // 2:
+        for t_out in (-far, v["N"] + far):
+            r = run(t0=t_out)
+            if r[0] == "ok" and np.all(np.isfinite(r[1])):
+                if float(np.max(np.abs(r[1]))) > 0.3 * peak:
+                    fail("leaves-window", "shower time %d samples (%.1f ns) outside the window: the trace still contains %.3g of the in-window peak %.3g"
+                         % (t_out if t_out < 0 else t_out - v["N"], far * v["dt"] * 1e9, float(np.max(np.abs(r[1]))), peak))
+            elif r[0] == "exc":
+                fail("leaves-window", "shower time %d samples raised %s" % (t_out, r[1]))
     return {"n": n, "nontrivial": ["%s|%s" % (model, sorted(cfg.items()))] if peak > 0 else [], "fails": fails,
             "stats": {"pulses": n}, "sample": {"model": model, "config": {k_: str(x) for k_, x in v.items()}}}
 
